@@ -1,3 +1,4 @@
+@property
 def spec(self):
     if self.__lateral_connection_name in self.cells_:
         return self.get_cell(self.__lateral_connection_name, self.__feedback_neuron_name)
